@@ -47,7 +47,7 @@ impl<R: io::Read> StreamEncryptor<R> {
         }
 
         let (info, message_key, nonce) =
-            aead_setup_rfc9580(sym_alg, aead, chunk_size, &salt[..], session_key);
+            aead_setup_rfc9580(sym_alg, aead, chunk_size, &salt[..], session_key)?;
         let chunk_size_expanded: usize = chunk_size
             .as_byte_size()
             .try_into()
